@@ -828,14 +828,47 @@ def check_wigner_marginals(ctx, s, hbar, d, rec, aux, case):
 
 
 def check_purify(ctx, s, hbar, d, rec):
+    """Returns what the purification looks like in dimensionless terms at this hbar:
+    ("raised", exception type) or ("ok", reduction deviation / scale, purity of the purification).
+    Whether purify() is *right* is not C14's subject; that its dimensionless outcome is the same at every
+    hbar is (judged by the caller across hbar)."""
     try:
         p = s.purify()
         r = p.reduced(tuple(range(d)))
         dev = max(_dev(_arr(r.xxpp_covariance_matrix) / hbar, rec["V"]), _dev(_arr(r.xxpp_mean_vector) / np.sqrt(hbar), rec["mu"]))
         if dev > 1e-7 * rec["scale"]:
-            ctx.obs.add("purify(): reduction of the purification to the original modes differs from the state (not judged by C14)")
+            ctx.obs.add("purify(): reduction of the purification to the original modes differs from the state (judged only as hbar dependence)")
+        try:
+            pur = float(np.real(p.get_purity()))
+        except Exception:  # noqa: BLE001
+            pur = float("nan")
+        return ("ok", float(dev / rec["scale"]), pur)
     except Exception as e:  # noqa: BLE001
-        ctx.obs.add("purify() raised %s (not judged by C14)" % type(e).__name__)
+        ctx.obs.add("purify() raised %s (judged only as hbar dependence)" % type(e).__name__)
+        return ("raised", type(e).__name__)
+
+
+def judge_purify_across_hbar(ctx, res, case, d):
+    """res: {hbar: outcome of check_purify}. The same physical state must purify alike at every hbar."""
+    if len(res) < 2:
+        return
+    ctx.c["purify_hbar_comparisons"] = ctx.c.get("purify_hbar_comparisons", 0) + len(res) - 1
+    kinds = {v[0] for v in res.values()}
+    if len(kinds) > 1:
+        ctx.viol("purify-depends-on-hbar", "purify() of the same physical state (d=%d) raises at hbar in %s and returns at %s" % (
+            d, sorted(h for h, v in res.items() if v[0] == "raised"), sorted(h for h, v in res.items() if v[0] == "ok")), case)
+        return
+    if kinds == {"raised"}:
+        return
+    devs = [v[1] for v in res.values()]
+    purs = [v[2] for v in res.values()]
+    if max(devs) > 1e-6 and min(devs) <= 1e-7:
+        ctx.viol("purify-depends-on-hbar", "the reduction of purify() reproduces the state at hbar=%s (deviation %.1e) but not at hbar=%s (deviation %.1e), d=%d" % (
+            min(res, key=lambda h: res[h][1]), min(devs), max(res, key=lambda h: res[h][1]), max(devs), d), case)
+        return
+    if all(np.isfinite(purs)) and max(purs) - min(purs) > 1e-6 * max(1.0, max(abs(x) for x in purs)):
+        ctx.viol("purify-depends-on-hbar", "purity of the purification of the same physical state depends on hbar: %s (d=%d)" % (
+            {h: round(v[2], 9) for h, v in res.items()}, d), case)
 
 
 # ---------------------------------------------------------------------------- one case
@@ -849,6 +882,7 @@ def run_case(ctx, pq, case):
     perm = perm_xxpp_to_xpxp(d)
     ctx.evals += 1
     per_h = {}
+    purify_res = {}
     first_rec = {}
     wig = {}
     prog_exc = {}
@@ -921,8 +955,9 @@ def run_case(ctx, pq, case):
             first_rec["ref"] = crec
         wig[hbar] = side_observations(ctx, pq, chosen, hbar, d, crec, aux)
         check_wigner_marginals(ctx, chosen, hbar, d, crec, aux, c_sub)
-        if hi == 1 and d <= 2:
-            check_purify(ctx, chosen, hbar, d, crec)
+        if d <= 2:
+            purify_res[hbar] = check_purify(ctx, chosen, hbar, d, crec)
+    judge_purify_across_hbar(ctx, purify_res, case, d)
     if prog_exc:
         if len(prog_exc) == len(hbars) and len({v[0] for v in prog_exc.values()}) == 1:
             ctx.obs.add("a generated program raises %s at every hbar alike (not judged by C14)" % list(prog_exc.values())[0][0])
